@@ -33,19 +33,21 @@ func (r *RestorerResolver) ResolvePackage(path string) (string, error) {
 		return name, nil
 	}
 
+	// the resolver may be shared between restorers: work on a copy of the config
+	cfg := r.Config
 	if r.Dir != "" {
-		r.Config.Dir = r.Dir
+		cfg.Dir = r.Dir
 	}
-	r.Config.Mode = packages.LoadTypes
-	r.Config.Tests = false
+	cfg.Mode = packages.LoadTypes
+	cfg.Tests = false
 
-	pkgs, err := packages.Load(&r.Config, "pattern="+path)
+	pkgs, err := packages.Load(&cfg, "pattern="+path)
 	if err != nil {
 		return "", err
 	}
 
 	if len(pkgs) > 1 {
-		return "", fmt.Errorf("%d packages found for %s, %s", len(pkgs), path, r.Config.Dir)
+		return "", fmt.Errorf("%d packages found for %s, %s", len(pkgs), path, cfg.Dir)
 	}
 	if len(pkgs) == 0 {
 		return "", resolver.ErrPackageNotFound
